@@ -375,6 +375,22 @@ theorem fswapPow_conjugation (c s : Rat) (h : c * c + s * s = 1) :
   all_goals try linear_combination (-(s * s)) * h
   all_goals try linear_combination (c * s) * h
 
+/-- Angle addition (`G(θ₁)·G(θ₂) = G(θ₁+θ₂)` on rational points of the circle: `(c,s)·(c',s') = (cc'−ss', cs'+sc')`)
+for the one-parameter gate families of the Model: `FSWAP**t`, `Rxxyy`, `Ryxxy`, `Rzz`, `rot11`. -/
+theorem gates_angle_addition (c s c' s' : Rat) :
+    Mat.mul (rxxyy c s) (rxxyy c' s') = rxxyy (c * c' - s * s') (c * s' + s * c') ∧
+    Mat.mul (ryxxy c s) (ryxxy c' s') = ryxxy (c * c' - s * s') (c * s' + s * c') ∧
+    Mat.mul (rzz c s) (rzz c' s') = rzz (c * c' - s * s') (c * s' + s * c') ∧
+    Mat.mul (rot11 c s) (rot11 c' s') = rot11 (c * c' - s * s') (c * s' + s * c') := by
+  unfold rxxyy ryxxy rzz rot11
+  refine ⟨?_, ?_, ?_, ?_⟩ <;> mat_unfold <;> mat_entries
+
+/-- …and for `FSWAP**t` (exponent additivity `FSWAP**t₁ · FSWAP**t₂ = FSWAP**(t₁+t₂)`) -/
+theorem fswapPow_angle_addition (c s c' s' : Rat) (h : c * c + s * s = 1) (h' : c' * c' + s' * s' = 1) :
+    Mat.mul (fswapPow c s) (fswapPow c' s') = fswapPow (c * c' - s * s') (c * s' + s * c') := by
+  unfold fswapPow
+  mat_unfold
+  mat_entries
 /-- `QuadraticFermionicSimulationGate._decompose_` equals the gate:
 `CZ**(-w1 t/π) · Z₀**θ · ISWAP**(-r t) · Z₀**(-θ)` is `exp(-i t H)` for every phase `u = e^{iπθ}`. -/
 theorem quadratic_decomposition (c0 s0 c1 s1 : Rat) (u : GQ) (hu : u * GQ.conj u = 1) :
